@@ -121,6 +121,10 @@ def o_eig(rng, n=30):
     return O.run_oracle("eig", O.gen_eig_inputs(rng, n))
 
 
+def o_process_history(rng, n=4):
+    return O.run_oracle("process_history", O.gen_process_history_inputs(rng, n))
+
+
 def o_solver_reuse(rng, n=6):
     return O.run_oracle("solver_reuse", O.gen_solver_reuse_inputs(rng, n))
 
@@ -208,13 +212,20 @@ def corpus_F1_rotation(rng):
 
 
 def corpus_F8(rng):
-    nprng = np.random.default_rng(2024)
-    n = 17
-    Q, _ = np.linalg.qr(nprng.normal(size=(n, n)))
-    ev = np.array([1.0] * 7 + [0.999] * 2 + [0.25] + [0.0] * 7)
+    """fixed witness of F8 (found by search, seed 22): 24x24, spectrum {1 x5, 0.999 x2, 0 x17} — 0.999 is NOT close to 1,
+    yet with sub-blocks of 19 rows the block-divided path returns columns outside the unit eigenspace"""
+    r = np.random.default_rng(22)
+    n = int(r.integers(8, 30))
+    Q, _ = np.linalg.qr(r.normal(size=(n, n)))
+    k1 = int(r.integers(1, n // 2))
+    k2 = int(r.integers(1, 4))
+    near = float(r.choice([0.999, 0.9999, 0.99999, 0.99]))
+    ev = np.array([1.0] * k1 + [near] * k2 + [0.0] * (n - k1 - k2))
     M = (Q * ev) @ Q.T
     M = (M + M.T) / 2
-    return O.run_oracle("eig", [{"matrix": M.tolist(), "hooks": {"eig_target": 3}}])
+    tgt = int(r.integers(max(2, n // 2), n))
+    assert (n, k1, k2, near, tgt) == (24, 5, 2, 0.999, 19)
+    return O.run_oracle("eig", [{"matrix": M.tolist(), "hooks": {"eig_target": tgt}}])
 
 
 def known_F8(k, f):
@@ -399,10 +410,11 @@ PROPS = {
         "trusted": [KERNELS["eigh"], KERNELS["float"], "thread count / BLAS reduction order and log_level are not modelled"],
     },
     "C12": {
-        "lean": "SymfcModel.Props.C12", "gen": ["ApiOrders", "ApiDataset", "ApiSolve", "ApiCompute", "Solver", "SolverState"],
+        "lean": "SymfcModel.Props.C12", "gen": ["ApiOrders", "ApiDataset", "ApiSolve", "ApiCompute", "Solver", "SolverState", "Purity"],
         "corr": [{"fn": corr_api.corr_api, "quick": {"n_hist": 40}, "thorough": {"n_hist": 300, "hist_len": 9}}],
         "oracle": [{"name": "history", "fn": o_history, "quick": {"n": 8}, "thorough": {"n": 40}, "search": {"n": 24}},
                    {"name": "solver_object_reuse", "fn": o_solver_reuse, "quick": {"n": 6}, "thorough": {"n": 36}, "search": {"n": 18}},
+                   {"name": "process_and_object_history", "fn": o_process_history, "quick": {"n": 5}, "thorough": {"n": 40}, "search": {"n": 30}},
                    {"name": "basis_untouched_by_fit", "fn": o_ortho_after_fit, "quick": {"n": 6}, "thorough": {"n": 24},
                     "search": {"n": 18}}],
         "trusted": [KERNELS["eigh"], KERNELS["posv"], "solver results are deterministic functions of their arguments (modelled as tokens)"],
